@@ -110,13 +110,19 @@ def flatFull (bs : List Byte) (n : Nat) : Res (List Byte) :=
 
 /-! ## ReadData -/
 
+/-- One iteration of the record loop either returns (`done`) or continues with the rest of
+    the stream and the updated data (`more`). -/
+inductive Step (ρ : Type) where
+  | done (res : Data × Option RErr)
+  | more (r : ρ) (d : Data)
+
 /-- Continue with the bytes read, or return the I/O error with the data as it is. -/
 @[inline] def Res.andThen {ρ : Type} (x : Res ρ) (d : Data)
-    (k : List Byte → ρ → Data × Option RErr) : Data × Option RErr :=
+    (k : List Byte → ρ → Step ρ) : Step ρ :=
   match x with
   | .ok b r => k b r
-  | .eof => (d, some .eof)
-  | .ueof => (d, some .ueof)
+  | .eof => .done (d, some .eof)
+  | .ueof => .done (d, some .ueof)
 
 def errorOfCode (code : Nat) : RErr :=
   if code = 0 then .unrecCritical
@@ -124,37 +130,41 @@ def errorOfCode (code : Nat) : RErr :=
   else if code = 2 then .internal
   else .unknownCode
 
-/-- ntske.ReadData: the record loop. `full` is `binary.Read`/`io.ReadFull`, `ck` the
-    primitive used for cookie bodies. Returns the data *as mutated so far* and the error.
+/-- Body of the `for` loop of ntske.ReadData: one record. `full` is `binary.Read` /
+    `io.ReadFull`, `ck` the primitive used for cookie bodies. The data is returned *as
+    mutated so far* together with the error.
     NB (as in the code): the body length field is used only for cookie, server and unknown
     records; next-protocol, AEAD, port and error records read exactly two bytes whatever
     their length field says; a warning record (type 3) is not known to the reader. -/
+def step {ρ : Type} (full ck : ρ → Nat → Res ρ) (r : ρ) (d : Data) : Step ρ :=
+  (full r 4).andThen d fun h r =>
+    let raw := be16 (h.getD 0 0) (h.getD 1 0)
+    let blen := be16 (h.getD 2 0) (h.getD 3 0)
+    let crit := raw / 32768 % 2 == 1
+    let typ := raw % 32768
+    if typ = recEom then .done (d, none)
+    else if typ = recNextproto then
+      (full r 2).andThen d fun _ r => .more r d
+    else if typ = recAead then
+      (full r 2).andThen d fun b r => .more r { d with algo := be16 (b.getD 0 0) (b.getD 1 0) }
+    else if typ = recCookie then
+      (ck r blen).andThen d fun b r => .more r { d with cookies := d.cookies ++ [b] }
+    else if typ = recServer then
+      (full r blen).andThen d fun b r => .more r { d with server := b }
+    else if typ = recPort then
+      (full r 2).andThen d fun b r => .more r { d with port := be16 (b.getD 0 0) (b.getD 1 0) }
+    else if typ = recError then
+      (full r 2).andThen d fun b _ => .done (d, some (errorOfCode (be16 (b.getD 0 0) (b.getD 1 0))))
+    else if crit then .done (d, some (.critical typ))
+    else (full r blen).andThen d fun _ r => .more r d
+
+/-- ntske.ReadData: the record loop (fuel: see `fuelFor`; it never runs out, C08Ntske). -/
 def loop {ρ : Type} (full ck : ρ → Nat → Res ρ) : Nat → ρ → Data → Data × Option RErr
   | 0, _, d => (d, some .fuel)
   | f + 1, r, d =>
-    (full r 4).andThen d fun h r =>
-      let raw := be16 (h.getD 0 0) (h.getD 1 0)
-      let blen := be16 (h.getD 2 0) (h.getD 3 0)
-      let crit := raw / 32768 % 2 == 1
-      let typ := raw % 32768
-      if typ = recEom then (d, none)
-      else if typ = recNextproto then
-        (full r 2).andThen d fun _ r => loop full ck f r d
-      else if typ = recAead then
-        (full r 2).andThen d fun b r =>
-          loop full ck f r { d with algo := be16 (b.getD 0 0) (b.getD 1 0) }
-      else if typ = recCookie then
-        (ck r blen).andThen d fun b r =>
-          loop full ck f r { d with cookies := d.cookies ++ [b] }
-      else if typ = recServer then
-        (full r blen).andThen d fun b r => loop full ck f r { d with server := b }
-      else if typ = recPort then
-        (full r 2).andThen d fun b r =>
-          loop full ck f r { d with port := be16 (b.getD 0 0) (b.getD 1 0) }
-      else if typ = recError then
-        (full r 2).andThen d fun b _ => (d, some (errorOfCode (be16 (b.getD 0 0) (b.getD 1 0))))
-      else if crit then (d, some (.critical typ))
-      else (full r blen).andThen d fun _ r => loop full ck f r d
+    match step full ck r d with
+    | .done res => res
+    | .more r d => loop full ck f r d
 
 /-- Fuel: every iteration consumes at least the 4 header bytes. -/
 def fuelFor (n : Nat) : Nat := n + 1
@@ -286,11 +296,17 @@ def exchangeKeysOld (_cached : Data) (e : Exchange) : Data × Option ExErr :=
         else if d.algo ≠ aesSivCmac256 then (d, some .unknownAlgo)
         else (d, none)
 
+/-- What `FetchData` returns: `(Data, nil)` or `(Data{}, err)`. -/
+inductive FetchOut where
+  | ok (d : Data)
+  | error (e : ExErr)
+deriving DecidableEq, Repr
+
 /-- Result of one `FetchData` call. `exchanged` tells whether a key exchange (a new
     connection) was performed. -/
 structure FetchRes where
   cached : Data                 -- f.data afterwards
-  out : Except ExErr Data       -- returned (Data, error)
+  out : FetchOut                -- returned (Data, error)
   exchanged : Bool
 
 /-- Fetcher.FetchData, parametrised by the exchange function: re-key iff the pool is empty;
